@@ -96,6 +96,23 @@ struct Runner
         m.arena = 1;
         // plan the elements first: the vector is constructed for exactly their payload
         const int style = static_cast<int>(rng.below(5));
+        // per VaryingSize parameter: what its count parameter can hold, and the size of its items
+        std::vector<size_t> vmax, vsize;
+        {
+            size_t cmax = static_cast<size_t>(-1) / 2;
+            for (auto& f : fields)
+            {
+                if (f.kind == 'C') cmax = count_type_max(f.tname);
+                if (f.kind == 'V')
+                {
+                    vmax.push_back(cmax);
+                    vsize.push_back(f.size);
+                }
+            }
+        }
+        // one element of some cases gets a count from the upper half of a narrow count type (128..255 for uint8_t, 100..127 for
+        // int8_t, above 32767 for 16-bit types): a count handled as the wrong (signed / narrower) type shows there
+        const size_t big_elem = rng.chance(1, 5) && m.cap != 0 ? static_cast<size_t>(rng.below(m.cap)) : static_cast<size_t>(-1);
         std::vector<MElem> plan;
         for (size_t i = 0; i < m.cap; ++i)
         {
@@ -111,6 +128,14 @@ struct Runner
                     case 3: c = (i * 3 + k * 5 + static_cast<size_t>(cno)) % (max_span + 1); break;  // sweeping residues
                     default: c = static_cast<size_t>(rng.below(max_span + 1));
                 }
+                if (i == big_elem)
+                {
+                    if (vmax[k] == 255) c = 128 + static_cast<size_t>(rng.below(128));
+                    else if (vmax[k] == 127) c = 100 + static_cast<size_t>(rng.below(28));
+                    else if (vmax[k] == 65535 && vsize[k] <= 4 && rng.chance(1, 4)) c = 32768 + static_cast<size_t>(rng.below(2000));
+                    else if (vmax[k] == 32767 && vsize[k] <= 4 && rng.chance(1, 4)) c = 32000 + static_cast<size_t>(rng.below(767));
+                }
+                c = std::min(c, vmax[k]);
                 counts.push_back(c);
             }
             plan.push_back(G::make_model_elem(next_id++, m.fixed, counts));
@@ -166,10 +191,12 @@ struct Runner
                 size_t remaining = m.budget - Mon::payload(m);
                 std::vector<size_t> counts;
                 const bool last_slot = m.e.size() + 1 == m.cap;
+                size_t cmax = static_cast<size_t>(-1) / 2;
                 for (auto& f : fields)
                 {
+                    if (f.kind == 'C') cmax = count_type_max(f.tname);
                     if (f.kind != 'V') continue;
-                    const size_t fit = remaining / f.size;
+                    const size_t fit = std::min(remaining / f.size, cmax);  // the count parameter must be able to hold it
                     const size_t c = last_slot ? fit : static_cast<size_t>(rng.below(fit + 1));
                     counts.push_back(c);
                     remaining -= c * f.size;
@@ -213,10 +240,12 @@ struct Runner
                 size_t remaining = m.budget - Mon::payload(m);
                 std::vector<size_t> counts;
                 const bool last_slot = m.e.size() + 1 == m.cap;
+                size_t cmax = static_cast<size_t>(-1) / 2;
                 for (auto& f : fields)
                 {
+                    if (f.kind == 'C') cmax = count_type_max(f.tname);
                     if (f.kind != 'V') continue;
-                    const size_t fit = remaining / f.size;
+                    const size_t fit = std::min(remaining / f.size, cmax);
                     const size_t c = last_slot ? fit : static_cast<size_t>(rng.below(std::min(fit, max_span * 2) + 1));
                     counts.push_back(c);
                     remaining -= c * f.size;
